@@ -136,16 +136,29 @@ func (c *FnCtx) execStmt(st *State, s ast.Stmt) []Out {
 		st.ret = vals
 		return []Out{{st: st, flow: FReturn}}
 	case *ast.BranchStmt:
+		label := ""
 		if x.Label != nil {
-			c.unsupportedf(x, "labelled branch")
+			label = x.Label.Name
 		}
 		switch x.Tok {
 		case token.BREAK:
-			return []Out{{st: st, flow: FBreak}}
+			return []Out{{st: st, flow: FBreak, label: label}}
 		case token.CONTINUE:
-			return []Out{{st: st, flow: FContinue}}
+			return []Out{{st: st, flow: FContinue, label: label}}
 		}
 		c.unsupportedf(x, "branch statement %s", x.Tok)
+	case *ast.LabeledStmt:
+		// a label names the loop (or switch) it precedes: `break L` / `continue L` inside leave the statements in between
+		// abruptly and are consumed by the statement that carries the label
+		switch x.Stmt.(type) {
+		case *ast.ForStmt, *ast.RangeStmt, *ast.SwitchStmt, *ast.TypeSwitchStmt:
+			if c.labels == nil {
+				c.labels = map[ast.Stmt]string{}
+			}
+			c.labels[x.Stmt] = x.Label.Name
+			return c.execStmt(st, x.Stmt)
+		}
+		c.unsupportedf(x, "label on %T", x.Stmt)
 	case *ast.IfStmt:
 		return c.execIf(st, x)
 	case *ast.SwitchStmt:
@@ -654,8 +667,9 @@ func (c *FnCtx) execSwitch(st *State, x *ast.SwitchStmt) []Out {
 		b.pc = append(b.pc, negs...)
 		b.pc = append(b.pc, cond)
 		for _, o := range c.execBlock(b, cc.Body) {
-			if o.flow == FBreak {
+			if o.flow == FBreak && (o.label == "" || o.label == c.labels[x]) {
 				o.flow = FNormal
+				o.label = ""
 			}
 			outs = append(outs, o)
 		}
@@ -668,8 +682,9 @@ func (c *FnCtx) execSwitch(st *State, x *ast.SwitchStmt) []Out {
 	d.pc = append(d.pc, negs...)
 	if deflt != nil {
 		for _, o := range c.execBlock(d, deflt.Body) {
-			if o.flow == FBreak {
+			if o.flow == FBreak && (o.label == "" || o.label == c.labels[x]) {
 				o.flow = FNormal
+				o.label = ""
 			}
 			outs = append(outs, o)
 		}
@@ -743,8 +758,9 @@ func (c *FnCtx) execTypeSwitch(st *State, x *ast.TypeSwitchStmt) []Out {
 			c.defineVar(b, obj, bound.withGo(obj.Type()))
 		}
 		for _, o := range c.execBlock(b, cc.Body) {
-			if o.flow == FBreak {
+			if o.flow == FBreak && (o.label == "" || o.label == c.labels[x]) {
 				o.flow = FNormal
+				o.label = ""
 			}
 			outs = append(outs, o)
 		}
@@ -757,8 +773,9 @@ func (c *FnCtx) execTypeSwitch(st *State, x *ast.TypeSwitchStmt) []Out {
 			c.defineVar(d, obj, v.withGo(obj.Type()))
 		}
 		for _, o := range c.execBlock(d, deflt.Body) {
-			if o.flow == FBreak {
+			if o.flow == FBreak && (o.label == "" || o.label == c.labels[x]) {
 				o.flow = FNormal
+				o.label = ""
 			}
 			outs = append(outs, o)
 		}
@@ -1032,6 +1049,13 @@ func (c *FnCtx) execFor(st *State, x *ast.ForStmt) []Out {
 	bodyOuts := c.execBlock(b, x.Body.List)
 	c.coverBody(bodyOuts, x)
 	for _, o := range bodyOuts {
+		if o.label != "" {
+			if o.label != c.labels[x] {
+				outs = append(outs, o) // jump to an enclosing labelled statement
+				continue
+			}
+			o.label = ""
+		}
 		switch o.flow {
 		case FNormal, FContinue:
 			s := o.st
@@ -1213,6 +1237,13 @@ func (c *FnCtx) execRange(st *State, x *ast.RangeStmt) []Out {
 	bodyOuts := c.execBlock(b, x.Body.List)
 	c.coverBody(bodyOuts, x)
 	for _, o := range bodyOuts {
+		if o.label != "" {
+			if o.label != c.labels[x] {
+				outs = append(outs, o) // jump to an enclosing labelled statement
+				continue
+			}
+			o.label = ""
+		}
 		switch o.flow {
 		case FNormal, FContinue:
 			env2 := map[string]*Term{}
@@ -1268,6 +1299,10 @@ func (c *FnCtx) numberLoops(body ast.Node) {
 	})
 	assigned := map[ast.Node]int{}
 	rec := c.eng.loopLock[c.fi.Key]
+	if len(c.inlineStack) == 0 && len(rec) > len(loops) {
+		// fewer loops than on the recorded tree: a loop was removed, merged or moved into a helper
+		c.loopsLost = true
+	}
 	if len(rec) > 0 && len(c.inlineStack) == 0 {
 		cntR, cntC := map[string]int{}, map[string]int{}
 		for _, s := range rec {
@@ -1359,6 +1394,14 @@ func (c *FnCtx) calleeShort(call *ast.CallExpr) string {
 		if sel, ok := c.info.Selections[f]; ok && sel.Kind() == types.MethodVal {
 			if n := ownerNamed(sel.Recv()); n != nil {
 				return n.Obj().Name() + "." + f.Sel.Name
+			}
+		}
+		// a func-typed field of a struct, e.g. pass.ReadFile(...)
+		if sel, ok := c.info.Selections[f]; ok && sel.Kind() == types.FieldVal {
+			if _, isFunc := types.Unalias(sel.Type()).Underlying().(*types.Signature); isFunc {
+				if n := ownerNamed(sel.Recv()); n != nil {
+					return n.Obj().Name() + "." + f.Sel.Name
+				}
 			}
 		}
 	}
